@@ -29,6 +29,22 @@ const FEATURES_ON: &[&str] = &[
     "ahash",
 ];
 
+thread_local! {
+    /// per-target overrides: "+feat" switches a feature on, "-feat" off
+    static OVERRIDES: std::cell::RefCell<Vec<String>> = const { std::cell::RefCell::new(Vec::new()) };
+}
+
+fn feature_on(name: &str) -> bool {
+    let ov = OVERRIDES.with(|o| o.borrow().clone());
+    if ov.iter().any(|o| o.strip_prefix('+') == Some(name)) {
+        return true;
+    }
+    if ov.iter().any(|o| o.strip_prefix('-') == Some(name)) {
+        return false;
+    }
+    FEATURES_ON.contains(&name)
+}
+
 fn cfg_eval(meta: &syn::Meta) -> bool {
     match meta {
         syn::Meta::Path(p) => {
@@ -44,7 +60,7 @@ fn cfg_eval(meta: &syn::Meta) -> bool {
                     ..
                 }) = &nv.value
                 {
-                    return FEATURES_ON.contains(&s.value().as_str());
+                    return feature_on(s.value().as_str());
                 }
             }
             false
@@ -625,7 +641,7 @@ fn main() {
     fs::create_dir_all(out_dir).unwrap();
 
     // module -> list of (defname, file, path)
-    let mut by_module: BTreeMap<String, Vec<(String, String, Vec<String>)>> = BTreeMap::new();
+    let mut by_module: BTreeMap<String, Vec<(String, String, Vec<String>, Vec<String>)>> = BTreeMap::new();
     for line in targets.lines() {
         let line = line.trim();
         if line.is_empty() || line.starts_with('#') {
@@ -667,7 +683,7 @@ fn main() {
             }
             continue;
         }
-        if f.len() != 4 {
+        if f.len() != 4 && f.len() != 5 {
             eprintln!("bad target line: {line}");
             std::process::exit(2);
         }
@@ -675,6 +691,7 @@ fn main() {
             f[1].to_string(),
             f[2].to_string(),
             f[3].split("::").map(|s| s.to_string()).collect(),
+            f.get(4).map(|s| s.split(',').map(|x| x.to_string()).collect()).unwrap_or_default(),
         ));
     }
 
@@ -687,7 +704,8 @@ fn main() {
             "(* GENERATED by rs2v from /repo's current sources -- do not edit. *)\nFrom AM Require Import Rust.Ast.\nOpen Scope string_scope.\n"
         )
         .unwrap();
-        for (defname, file, path) in defs {
+        for (defname, file, path, overrides) in defs {
+            OVERRIDES.with(|o| *o.borrow_mut() = overrides.clone());
             let src = fs::read_to_string(repo.join(file));
             let found = src
                 .ok()
